@@ -53,6 +53,14 @@ def programs(env, tier):
         out.append((1, [(a1[0], 0), (a1[4], 0), ((w,), 0)]))
         out.append((2, [(a1[0], 0), (a1[9], 1), (("CNOT",), 0), (a1[4], 0), (a1[7], 1), ((w,), 0)]))
     out.append((2, [(a1[9], 0), (a1[0], 1), (("CZ_Heralded",), 0), (a1[10], 1), (("DH0",), 0), (("DHmid",), 0)]))
+    # nearly-basis states and weak entanglement: Pauli expectations that are small but not zero
+    for th in (1e-6, 1e-5, 8e-4, 3e-3, 0.05):
+        out.append((1, [(("Ry", th), 0)]))
+        out.append((1, [(("Rx", th), 0), (a1[10], 0)]))
+        out.append((1, [(a1[0], 0), (("Rz", th), 0)]))
+    for th in (1e-5, 8e-4):
+        out.append((2, [(("Ry", th), 0), (("CNOT",), 0)]))
+        out.append((2, [(a1[0], 0), (("Rx", th), 1), (("CZ",), 0)]))
     # three qubits: GHZ-type and a CCZ state with complex phases
     out.append((3, [(a1[0], 0), (("CNOT_Heralded",), 0), (("CNOT",), 1), (a1[4], 2)]))
     out.append((3, [(a1[0], 0), (a1[0], 1), (a1[0], 2), (("CCZ",), 0), (a1[6], 0), (a1[9], 1), (a1[7], 2)]))
